@@ -117,7 +117,11 @@ func freshWin(slot byte, fk string, recvKind string, er, ec int) (Win, bool) {
 		if er != ec {
 			return Win{}, false
 		}
-		return Win{K: recvKind, PS: er + 1, PR: er + 1, I: 1, J: 1, R: er, C: er}, true
+		k := recvKind
+		if k != "U" && k != "L" {
+			k = "U"
+		}
+		return Win{K: k, PS: er + 1, PR: er + 1, I: 1, J: 1, R: er, C: er}, true
 	}
 	switch fk {
 	case "S", "U", "L":
@@ -230,7 +234,7 @@ func (pl *plan) addBlocks(op *opDef, rk string, recvs []Win, dims [][2]int, free
 				er, ec = ec, er
 			}
 			// identity: the receiver itself in slot p
-			if withSame && fk == "D" && !op.NoSame && er == rr && ec == rc && (!t || canT(st, rk)) && freshOK(p, -1) {
+			if withSame && fk == "D" && !op.NoSame && er == rr && ec == rc && (!t || op.canT(p, rk)) && freshOK(p, -1) {
 				okKind := false
 				for _, k := range slotKinds(st) {
 					okKind = okKind || k == rk
@@ -249,7 +253,7 @@ func (pl *plan) addBlocks(op *opDef, rk string, recvs []Win, dims [][2]int, free
 				}
 			}
 			for _, ak := range slotKinds(st) {
-				if t && !canT(st, ak) {
+				if t && !op.canT(p, ak) {
 					continue
 				}
 				if op.Recv == 'T' && st == 'T' {
